@@ -78,7 +78,7 @@ func frameBytes(f string, sid uint32, lastSid uint32) []byte {
 	panic("unknown frame " + f)
 }
 
-func headerFrame(f string, sid uint32, tag string) []byte {
+func headerFrame(f string, sid uint32, tag string, enc *h2raw.Enc) []byte {
 	order := map[string]string{"H1": "masp", "H2": "mpas", "H3": "mspa"}[f]
 	m := map[byte]h2raw.HF{'m': {":method", "GET"}, 'a': {":authority", "vf.test"}, 's': {":scheme", "https"}, 'p': {":path", "/r"}}
 	var fs []h2raw.HF
@@ -87,6 +87,9 @@ func headerFrame(f string, sid uint32, tag string) []byte {
 	}
 	fs = append(fs, h2raw.HF{"x-vf-tag", tag})
 	blk := h2raw.Block(fs)
+	if enc != nil { // indexed representations and a growing dynamic table, as real clients send them
+		blk = enc.Block(fs)
+	}
 	switch f {
 	case "H2":
 		return h2raw.Headers(sid, true, blk, &h2raw.Prio{Dep: 0, Excl: true, Weight: 255}, 0)
@@ -116,6 +119,10 @@ func runPath(st *stack.Stack, p Path, out *Out, mu *sync.Mutex) {
 	hc.AutoWU = false
 	hc.NoAck = true // the behaviour decides whether and when SETTINGS is acknowledged
 	var frames []string
+	var enc *h2raw.Enc
+	if p.ID%2 == 1 {
+		enc = &h2raw.Enc{}
+	}
 	sid := uint32(1)
 	last := uint32(0)
 	nreq, nfr := 0, 0
@@ -124,7 +131,7 @@ func runPath(st *stack.Stack, p Path, out *Out, mu *sync.Mutex) {
 		nfr++
 		if strings.HasPrefix(s.F, "H") {
 			tag := fmt.Sprintf("p%d-s%d", p.ID, si)
-			if _, err := cl.Conn.Write(headerFrame(s.F, sid, tag)); err != nil {
+			if _, err := cl.Conn.Write(headerFrame(s.F, sid, tag, enc)); err != nil {
 				fail("write: " + err.Error())
 				return
 			}
